@@ -229,7 +229,9 @@ theorem array_auto_extend (xs : List DV) (k : Nat) (v : DV) :
 /-- Zero is never an index one can assign to. -/
 theorem zero_index_assignment_fails (xs : List DV) (rest : List DV) (v : DV) :
     putPath (.arr xs) (vint 0 :: rest) v = .error .raise := by
-  simp [putPath, vint]; rfl
+  unfold putPath
+  simp [vint]
+  rfl
 
 /-- Auto-create: assigning through levels that do not exist creates MAPS, even for integer keys. -/
 theorem auto_create_makes_maps (i j : Int) (v : DV) :
